@@ -7,7 +7,7 @@
    Part C: the client model: OSendReq (requests, batches), OSendRsp (callback replies). *)
 From Coq Require Import List NArith ZArith Bool Arith Lia.
 From JV Require Import Bytes Sort Json JsonProofs JsonPrint JsonTree JsonEq Msg Wire WireProofs WireSpecs WireMore.
-From JV Require SrvModel SrvLemmas SrvC09 SrvC10 CliModel CliLemmas CliShape.
+From JV Require SrvModel SrvLemmas SrvC09 SrvC10 CliModel CliLemmas CliProofs CliShape.
 Import ListNotations.
 Local Open Scope N_scope.
 
@@ -338,4 +338,26 @@ Proof.
     + split; [discriminate|]. split; [reflexivity|]. right. right. repeat split; reflexivity.
     + split; [discriminate|]. split; [reflexivity|]. left. reflexivity.
   - eexists. split; [vm_compute; reflexivity|]. vm_compute. reflexivity.
+Qed.
+
+(* a reachable window of the client model in which a request record is sent *)
+Example cli_sendreq_reach_nonvacuous :
+  exists s s' os, CliLemmas.reach CliProofs.ex_cfg s /\ CliModel.step s (CliModel.LRelSend 0) = Some (s', os) /\
+    In (CliModel.OSendReq true false [([49], [109], [91; 49; 93])]) os /\
+    req_rt 1 [109] [91; 49; 93].
+Proof.
+  destruct (CliModel.run (CliLemmas.init_of CliProofs.ex_cfg) [CliModel.LOp 0 CliModel.KCall [CliProofs.ex_spec 49]; CliModel.LRelReq 0])
+    as [[s oss]|] eqn:E; [|vm_compute in E; discriminate E].
+  exists s. eexists. eexists. split; [exact (CliLemmas.run_reach _ _ _ _ _ (CliLemmas.reach_init _) E)|].
+  vm_compute in E. injection E as <- _. split; [vm_compute; reflexivity|]. split; [left; reflexivity|].
+  split; [discriminate|]. split; [reflexivity|]. right. right. repeat split; reflexivity.
+Qed.
+
+Example cli_sendrsp_bytes_nonvacuous :
+  id_rt' [55] /\ cbout_rt (CliModel.CbRes [116; 114; 117; 101]) /\ cbout_rt (CliModel.CbErr (-32603)%Z [120]) /\
+  exists bytes, enc_msg (jmsg_of_cbout [55] (CliModel.CbErr (-32603)%Z [120])) = Some bytes /\
+                parse_msgs bytes = InMsgs false [canon (jmsg_of_cbout [55] (CliModel.CbErr (-32603)%Z [120]))].
+Proof.
+  split; [right; reflexivity|]. split; [reflexivity|]. split; [unfold cbout_rt, int32_ok; split; discriminate|].
+  eexists. split; [vm_compute; reflexivity|]. vm_compute. reflexivity.
 Qed.
